@@ -213,7 +213,7 @@ pub fn run_schedule(w: &World, paths: &[Path], prefix: &[usize]) -> RunOut {
         let agent = nd.agent.clone();
         let bookie = nd.bookie.clone();
         let n = paths.len();
-        let start = std::sync::Arc::new(tokio::sync::Notify::new());
+        let start = std::sync::Arc::new(tokio::sync::Semaphore::new(0));
         let mut handles = vec![];
         ACTIVE.store(true, SeqCst);
         for (i, path) in paths.iter().enumerate() {
@@ -225,7 +225,7 @@ pub fn run_schedule(w: &World, paths: &[Path], prefix: &[usize]) -> RunOut {
             let bv = w.bv.clone();
             let path = *path;
             let h = tokio::spawn(async move {
-                start.notified().await;
+                start.acquire().await.unwrap().forget();
                 let now = Instant::now();
                 let pmc = |batch: Vec<ChangeV1>| {
                     klukai_agent::agent::process_multiple_changes(
@@ -280,11 +280,7 @@ pub fn run_schedule(w: &World, paths: &[Path], prefix: &[usize]) -> RunOut {
             TASKS.lock().unwrap().push((h.id(), i));
             handles.push(h);
         }
-        start.notify_waiters();
-        // give late subscribers of the Notify a permit each
-        for _ in 0..n {
-            start.notify_one();
-        }
+        start.add_permits(n);
 
         // ---------------- controller
         let mut st: Vec<St> = vec![St::Running; n];
@@ -430,7 +426,7 @@ pub fn run_schedule(w: &World, paths: &[Path], prefix: &[usize]) -> RunOut {
                     break;
                 }
                 if settle_start.elapsed() > Duration::from_secs(20) {
-                    machinery_error(&format!("C20-B: tasks did not settle: {st:?} paths {paths:?} acts {:?}", out.acts));
+                    machinery_error(&format!("C20-B: tasks did not settle: {st:?} paths {paths:?} acts {:?} log {:?}", out.acts, LOG.lock().unwrap()));
                 }
                 tokio::time::sleep(Duration::from_micros(200)).await;
             }
